@@ -33,7 +33,8 @@ SIG_TORN = "C13:xyz:cut-inside-last-token"
 SIG_RAISE = "C13:xyz:partial-line-raises"
 # open candidate findings on the UNCHANGED /repo (reported, not yet recorded in known_findings.json): a failure with one of
 # these signatures is written into the evidence (extra.pending_findings) instead of being printed as a VIOLATION
-PENDING_FINDINGS = []     # C13:lammps:trailing-blank-late-newline was fixed by /repo dfb19e7 (known_findings.json: fixed)
+PENDING_FINDINGS = ["C13:text:carriage-return"]   # audit pass; see cr_probe (reported, not yet decided)
+# C13:lammps:trailing-blank-late-newline was fixed by /repo dfb19e7 (known_findings.json: fixed)
 SIG_TRAILING = "C13:lammps:trailing-blank-late-newline"
 
 
@@ -133,9 +134,11 @@ def gen_lmp(rng, natoms, nframes, style):
             text += sep(rng, style).join(toks) + "\n"
         if style == 3 and fr == 0:           # LAMMPS ends these lines with "id \n"; also tabs / several blanks
             tb = rng.choice([" ", " ", "  ", "\t", " \t "])
+        elif style == 4:                     # audit pass: a different amount of white space behind the ids of every
+            tb = None                        # line and frame (per-frame slack 1..4), incl. the rarer str.split() blanks
         elif style != 3:
             tb = ""
-        text += f"ITEM: ATOMS id type x y z vx vy vz id{u()}{tb}\n"
+        text += f"ITEM: ATOMS id type x y z vx vy vz id{u()}{tb or ''}\n"
         ids = list(range(1, natoms + 1))
         rng.shuffle(ids)
         if fr % 3 == 1:
@@ -151,7 +154,8 @@ def gen_lmp(rng, natoms, nframes, style):
             rows[i - 1] = toks
             lead = "" if style == 0 else " " * rng.randrange(0, 2)
             typ = str(rng.randrange(1, 3)) if style != 2 else rng.choice(["Cα", "Å", "1", "µ2"])
-            text += lead + sep(rng, style).join([str(i), typ] + toks + [str(i)]) + tb + "\n"
+            tbl = tb if tb is not None else rng.choice(["", "", " ", "  ", "\t", " \t ", "\x0c", " \x1f", "\x0b "])
+            text += lead + sep(rng, style).join([str(i), typ] + toks + [str(i)]) + tbl + "\n"
         frames.append((rows, box))
         bounds.append(blen(text))
     return text, frames, bounds
@@ -311,6 +315,25 @@ def pred_xyz(stages, cuts, frames, bounds):
     return None
 
 
+LMP_WS = " \t\n\x0b\x0c\x1c\x1d\x1e\x1f"
+
+
+def lmp_slacks(text, bounds):
+    """per frame: the bytes behind the trailing id of its last atom line (white space + newline; 1 = only the newline)"""
+    data = text.encode()
+    out = []
+    for i in range(len(bounds) - 1):
+        seg = data[bounds[i]:bounds[i + 1]].decode()
+        out.append(len(seg) - len(seg.rstrip(LMP_WS)))
+    return out
+
+
+def in_slack(c, bounds, sl):
+    """the cut lies strictly inside the white space behind a frame's last trailing id (the cuts the old guard
+    `tbFree` excluded)"""
+    return any(bounds[i + 1] - sl[i] <= c <= bounds[i + 1] - 2 for i in range(len(sl)))
+
+
 def pred_lmp(stages, cuts, frames, bounds, slack=1):
     """slack: bytes of a frame that may still be missing when it is returned — its final newline (1), or the blank
     and the newline behind the trailing id when the atom lines end in "id \n" (2): never a byte of a value"""
@@ -323,7 +346,8 @@ def pred_lmp(stages, cuts, frames, bounds, slack=1):
         d = len(got)
         if got != exp[:d]:
             return "C13:lammps:torn-or-wrong-frame", f"after poll {k} returned frames are not a prefix of the written ones", k
-        if bounds[d] - slack > cuts[k]:
+        sl = slack if isinstance(slack, list) else [slack] * len(frames)
+        if d >= 1 and bounds[d] - sl[d - 1] > cuts[k]:
             return "C13:lammps:torn-or-wrong-frame", f"after poll {k}: {d} frames returned, only {cuts[k]} bytes visible, frame {d} ends at {bounds[d]}", k
         if k >= 1 and d < complete(bounds, cuts[k - 1]):
             return "C13:lammps:frame-withheld", f"after poll {k}: {d} frames returned but {complete(bounds, cuts[k - 1])} were complete one poll earlier", k
@@ -380,6 +404,37 @@ def drive_model(ctx, head, seqs, chunk=300):
     return out
 
 
+# ----------------------------------------------------------------------------- '\r': outside the modelled domain
+CR_WITNESS = "2\r\nc\r\nH 1 2 3\r\nC 4 5 6\r\n2\r\nc\r\nH 1 2 3\r\nC 4 5 7\r\n"
+
+
+def cr_probe(ctx, ep, rf):
+    """Files with carriage returns are outside the domain of the theorems (`XyzF.WF.nocr` / `LmpF.WF.nocr`): the code
+    opens the file in universal-newline text mode, the byte model does not translate.  This probe records what the
+    real readers do on a CRLF xyz file cut between '\\r' and '\\n' (as found: the pending '\\r' reads as a line end,
+    the frame is returned, the next poll starts on the bare '\\n' and raises ZeroDivisionError).  The outcome goes
+    into the evidence as a pending finding (signature in PENDING_FINDINGS), never into a VIOLATION line."""
+    data = CR_WITNESS.encode()
+    half = len(data) // 2
+    frames = [[["1", "2", "3"], ["4", "5", "6"]], [["1", "2", "3"], ["4", "5", "7"]]]
+    out = {}
+    for name, cuts in (("cut-between-cr-and-lf", [half - 1, len(data), len(data)]), ("whole-file", [len(data)] * 2)):
+        stages = rf.polls(ep, ep.xyz_reader, data, cuts, conv_xyz)
+        bad = pred_xyz(stages, cuts, frames, [0, half, len(data)])
+        out[name] = "as the property demands" if bad is None else (
+            f"{bad[0]}: {bad[1]}; stages: " + " | ".join(show_code_stage(st, "xyz") for st in stages))
+        ctx.count(1, branch="xyz:carriage-return-probe")
+    sig = "C13:text:carriage-return"
+    if any(v != "as the property demands" for v in out.values()):
+        assert sig in PENDING_FINDINGS
+        ctx.hit("pending:" + sig)
+        ctx.extra.setdefault("pending_findings", []).append(
+            {"signature": sig, "witness": {"kind": "xyz", "text": CR_WITNESS, "cuts": [half - 1, len(data), len(data)]},
+             "observed": out})
+    else:
+        ctx.extra.setdefault("notes", []).append(f"{sig}: the CRLF witness is read as the property demands")
+
+
 # ----------------------------------------------------------------------------- text readers
 def check_text(ctx, ep, rf, kind, text, frames, bounds, seqs, label, trailing=0):
     """trailing=s>0: LAMMPS atom lines end in s-1 blanks/tabs before the newline (what dump custom writes): a frame may be
@@ -406,9 +461,13 @@ def check_text(ctx, ep, rf, kind, text, frames, bounds, seqs, label, trailing=0)
             m_asis = m_rep
             if any(cs != mm for cs, mm in zip(code_s, m_rep)):     # not the code as it is now: the recorded old rule?
                 m_asis = [canon_model(r) for r in drive_model(ctx, f"lmpv asIs {hexs(data)}", seqs)]
-            spec = drive_model(ctx, f"lspec {lst(lens)}", seqs)
+            sl = trailing if trailing else [1] * len(frames)
+            # per-frame-slack specification (right-hand side of lmp_exact_any_slack): judged on EVERY schedule
+            spec = drive_model(ctx, "lspecs " + lst([x for pr in zip(lens, sl) for x in pr]), seqs)
+            # the one-byte-lag specification (right-hand side of lmp_exact / lmp_exact_trailing_partial)
+            spec_old = drive_model(ctx, f"lspec {lst(lens)}", seqs)
     agree_asis = agree_rep = True
-    first_dis = None
+    first_dis = first_rep = None
     nfail = 0
     for k, cuts in enumerate(seqs):
         shape = ("late-file" if -1 in cuts else "single" if len(cuts) == 4 and cuts[1:] == [T, T, T] else
@@ -418,7 +477,7 @@ def check_text(ctx, ep, rf, kind, text, frames, bounds, seqs, label, trailing=0)
             ctx.distinct((kind, label, tuple(cuts)))
         bad = pred(code[k], cuts, frames, bounds, trailing) if trailing else pred(code[k], cuts, frames, bounds)
         if (bad is not None and trailing and bad[0] == "C13:lammps:partial-frame-raises"
-                and any(c + r in bounds[1:] for c in cuts for r in range(2, trailing + 1))):
+                and any(in_slack(c, bounds, trailing) for c in cuts)):
             bad = (SIG_TRAILING, bad[1] + " (a poll saw a frame up to its last id, the blank(s) and newline behind it "
                    "arrived later)", bad[2])
         if bad is not None:
@@ -435,46 +494,55 @@ def check_text(ctx, ep, rf, kind, text, frames, bounds, seqs, label, trailing=0)
                 agree_asis = False
                 if first_dis is None:
                     first_dis = (cuts, code_s[k], m_asis[k])
-            if m_rep is not None and strip_pos(code_s[k]) != strip_pos(m_rep[k]):
+            if code_s[k] != m_rep[k]:        # frames AND current_position, both readers
+                if agree_rep:
+                    first_rep = (cuts, code_s[k], m_rep[k])
                 agree_rep = False
-            if kind == "lmp" and code_s[k] != m_rep[k]:
-                agree_rep = False
-            if trailing and any(b - trailing <= c <= b - 2 for c in cuts for b in bounds[1:]):
-                continue     # a cut strictly inside the white space behind a last trailing id: outside `tbFree`
-            # the spec function (theorem right-hand side) against the implementation's output
-            spec_st = [[int(x) for x in s.split(",") if x.strip()] for s in spec[k].split(" | ")]
-            target = m_rep
-            tgt = strip_pos(target[k])
+            # the spec function (theorem right-hand side) against the reader model AND the implementation's output;
+            # no cut is skipped any more (the old guard `tbFree` only decides whether the one-byte-lag spec applies too)
+            specs_k = [("lmpStagesS" if kind == "lmp" else "exactStages", spec[k])]
+            if kind == "lmp" and not any(in_slack(c, bounds, sl) for c in cuts):
+                specs_k.append(("lmpStages", spec_old[k]))
+            elif kind == "lmp":
+                ctx.hit("lmp:cut-inside-trailing-white-space")
             exp_fr = ([fl_rows(f) for f in frames] if kind == "xyz"
                       else [(fl_rows(c), fl_rows(b)) for c, b in frames])
-            want = []
-            for idxs in spec_st:
-                fs = [exp_fr[i] for i in idxs]
-                want.append(show_code_stage((0, fs), kind).partition(":")[2])
-            if want != tgt:
-                ctx.disagree({"fn": f"{kind}: Lean spec stages vs Lean reader model", "label": label, "cuts": cuts},
-                             tgt, want)
+            for sname, sp in specs_k:
+                spec_st = [[int(x) for x in s.split(",") if x.strip()] for s in sp.split(" | ")]
+                want = []
+                for idxs in spec_st:
+                    fs = [exp_fr[i] for i in idxs]
+                    want.append(show_code_stage((0, fs), kind).partition(":")[2])
+                if want != strip_pos(m_rep[k]):
+                    ctx.disagree({"fn": f"{kind}: Lean spec stages ({sname}) vs Lean reader model", "label": label,
+                                  "cuts": cuts}, strip_pos(m_rep[k]), want)
+                if want != strip_pos(code_s[k]) and bad is None:
+                    ctx.hit(f"{kind}:predicate-fails:C13:{kind}:stages-not-as-specified")
+                    seen = ctx.extra.setdefault("_c13_reported", [])
+                    sig = f"C13:{'xyz' if kind == 'xyz' else 'lammps'}:stages-not-as-specified"
+                    if sig not in seen:
+                        seen.append(sig)
+                        ctx.fail(sig, f"{kind} reader: the frames returned poll by poll are not those of the "
+                                 f"specification {sname} (right-hand side of the exactness theorem): "
+                                 f"got {strip_pos(code_s[k])}, specified {want}",
+                                 {"kind": kind, "text": text, "cuts": cuts, "stage": 0, "frames": frames,
+                                  "bounds": bounds})
     if have_model:
         from props import c13_ext
         c13_ext.compare_object(ctx, kind, data, text, seqs, code, prevs, lens, frames, label,
                                (show_code_stage, canon_model, fl_rows), slack=trailing, bounds=bounds)
-        if kind == "xyz":
-            if agree_asis:
-                ctx.hit("xyz:code-agrees-with-model=asIs")
-            elif agree_rep:
-                ctx.hit("xyz:code-agrees-with-model=repaired")
-            else:
-                ctx.disagree({"fn": "xyz_reader vs model (neither asIs nor repaired everywhere)", "label": label,
-                              "text": text, "cuts": first_dis[0] if first_dis else None},
-                             first_dis[1] if first_dis else None, first_dis[2] if first_dis else None)
-        elif agree_rep:
-            ctx.hit("lmp:code-agrees-with-model=repaired")
-        elif agree_asis:
-            ctx.hit("lmp:code-agrees-with-model=asIs")
+        # audit pass: the model of the code as it is NOW is the variant `repaired` (xyz since 807db24, LAMMPS since
+        # dfb19e7).  Agreement with the recorded old variant `asIs` only is a broken correspondence, too.
+        rname = "xyz_reader" if kind == "xyz" else "lammpstrj_reader"
+        if agree_rep:
+            ctx.hit(f"{kind}:code-agrees-with-model=repaired")
         else:
-            ctx.disagree({"fn": "lammpstrj_reader vs model (neither repaired nor asIs everywhere)", "label": label,
-                          "text": text, "cuts": first_dis[0] if first_dis else None},
-                         first_dis[1] if first_dis else None, first_dis[2] if first_dis else None)
+            if agree_asis:
+                ctx.hit(f"{kind}:code-agrees-with-model=asIs")
+            ctx.disagree({"fn": f"{rname} vs model of the code as it is now (variant repaired)"
+                          + ("; it behaves like the recorded variant asIs (a repaired defect is back)"
+                             if agree_asis else ""), "label": label, "text": text, "cuts": first_rep[0]},
+                         first_rep[1], first_rep[2])
     return nfail
 
 
@@ -488,13 +556,13 @@ def check_interleaved(ctx, ep, tmpdir, pool):
     for _ in range(n):
         picks = [rng.choice(pool) for _ in range(3)]
         specs = []
-        for kind, text, frames, bounds in picks:
+        for kind, text, frames, bounds, sl in picks:
             data = text.encode()
             T = len(data)
             sq = rng.choice(extra_seqs(T, bounds, rng, n_multi=4)[-4:]) + [T, T]
             fn = ep.xyz_reader if kind == "xyz" else ep.lammpstrj_reader
             conv = conv_xyz if kind == "xyz" else conv_lmp
-            specs.append((kind, fn, data, sq, conv, frames, bounds, text))
+            specs.append((kind, fn, data, sq, conv, frames, bounds, text, sl))
         alone = [rf0.polls(ep, sp[1], sp[2], sp[3], sp[4]) for sp in specs]
         sta = rfa.start(ep, specs[0][1], specs[0][2], specs[0][3], specs[0][4])
         stb = rfb.start(ep, specs[1][1], specs[1][2], specs[1][3], specs[1][4])
@@ -510,7 +578,7 @@ def check_interleaved(ctx, ep, tmpdir, pool):
             kind, frames, bounds, text = sp[0], sp[5], sp[6], sp[7]
             ctx.count(1, branch="readers:interleaved" if j < 2 else "readers:same-name-new-reader")
             ctx.distinct(("interleaved", kind, text, tuple(sp[3])))
-            bad = (pred_xyz if kind == "xyz" else pred_lmp)(g, sp[3], frames, bounds)
+            bad = pred_xyz(g, sp[3], frames, bounds) if kind == "xyz" else pred_lmp(g, sp[3], frames, bounds, sp[8])
             if bad is None and g != a:
                 bad = ("C13:reader-state-leaks", "a reader polled next to another reader (or on a file name used "
                        "before) returns something else than the same reader alone", 0)
@@ -1041,6 +1109,7 @@ def run(ctx):
         except Exception as e:  # noqa: BLE001
             ctx.fail("C13:absent-file", f"poll of a not yet existing file raised {err_kind(e)}", {"kind": "absent"})
         ctx.count(1, branch="absent-file")
+        cr_probe(ctx, ep, rf)
 
         xyz_plan = []   # (natoms, nframes, style, pairs, max_pairs)
         lmp_plan = []
@@ -1051,7 +1120,8 @@ def run(ctx):
             lmp_plan = [(1, 2, 0, True, 2500), (2, 2, 1, True, 1200), (3, 3, 0, False, None), (4, 4, 1, False, None),
                         (1, 1, 0, True, None), (2, 4, 0, False, None), (12, 2, 0, False, None),
                         (1, 2, 2, True, 1500), (3, 3, 2, False, None),
-                        (1, 2, 3, True, 1500), (2, 3, 3, False, None)]
+                        (1, 2, 3, True, 1500), (2, 3, 3, False, None),
+                        (1, 3, 4, True, 1500), (2, 4, 4, False, None), (3, 3, 4, False, None)]
         else:
             for na in range(1, 5):
                 for nf in range(1, 5):
@@ -1061,10 +1131,11 @@ def run(ctx):
                         lmp_plan.append((na, nf, style, na * nf <= 2, 20000))
             lmp_plan += [(12, 2, 0, False, None), (11, 3, 1, False, None)]
             lmp_plan += [(na, nf, 3, na * nf <= 2, 20000) for na in range(1, 4) for nf in range(1, 4)]
+            lmp_plan += [(na, nf, 4, na * nf <= 2, 20000) for na in range(1, 4) for nf in range(1, 5)]
         pool = []
         for j, (na, nf, style, pairs, mp) in enumerate(xyz_plan):
             text, frames, bounds = gen_xyz(rng, na, nf, style)
-            pool.append(("xyz", text, frames, bounds))
+            pool.append(("xyz", text, frames, bounds, None))
             seqs = cut_seqs(blen(text), pairs, rng, mp) + extra_seqs(blen(text), bounds, rng)
             check_text(ctx, ep, rf, "xyz", text, frames, bounds, seqs, f"xyz{j}:{na}x{nf}:s{style}")
             if j < 2:
@@ -1087,11 +1158,16 @@ def run(ctx):
             check_text(ctx, ep, rf, "xyz", text, frames, bounds, seqs, f"xyzbig{j}:{na}x{nf}:s{style}")
         for j, (na, nf, style, pairs, mp) in enumerate(lmp_plan):
             text, frames, bounds = gen_lmp(rng, na, nf, style)
-            if style != 3:      # the object-state scenarios judge with the plain predicates: keep the pending class out
-                pool.append(("lmp", text, frames, bounds))
+            sl = lmp_slacks(text, bounds)
+            pool.append(("lmp", text, frames, bounds, sl))   # trailing-blank classes included since fix dfb19e7
             seqs = cut_seqs(blen(text), pairs, rng, mp) + extra_seqs(blen(text), bounds, rng)
+            if style in (3, 4):     # every cut inside the white space behind every frame's last id, in pairs too
+                T = blen(text)
+                ins = [c for c in range(T + 1) if in_slack(c, bounds, sl)]
+                seqs += [[a, b, T, T] for a in ins for b in ins if a <= b][:400]
+                seqs += [[a, a + 1, a + 2, T, T] for a in ins]
             check_text(ctx, ep, rf, "lmp", text, frames, bounds, seqs, f"lmp{j}:{na}x{nf}:s{style}",
-                       trailing=(len(text) - len(text.rstrip(" \t\n")) if style == 3 else 0))
+                       trailing=(sl if style in (3, 4) else 0))
             if j < 1:
                 ctx.sample({"kind": "lammpstrj", "text": text, "n_cut_sequences": len(seqs)})
 
@@ -1140,13 +1216,15 @@ def run(ctx):
         "(U+0085, U+00A0, U+2000.., U+3000: str.split() would split there, the byte model does not), and a locale "
         "whose encoding is not UTF-8",
         "constant atom count over a trajectory (the readers learn N only from the first frame of each poll)",
-        "LAMMPS atom lines may end in any blanks/tabs before the newline (what dump custom writes; class of its own in "
-        "the generator, every cut; a frame may be returned while at most that white space and the newline are missing, "
-        "never a byte of a value). Lean: the one-poll statements hold for every cut (lmp_trailing_frame_poll, "
-        "lmp_late_line_end_skipped); the poll-by-poll theorems hold for every schedule when the frames end right behind "
-        "their last trailing id (slack 1) and otherwise under the cut guard tbFree (no cut strictly inside the white "
-        "space behind a frame's LAST trailing id: *_trailing_partial) — the stage spec lmpStages is compared with the "
-        "implementation on exactly those schedules; on the others the predicates and model = code judge. The old "
+        "LAMMPS atom lines may end in any white space before the newline (what dump custom writes: 'id \\n'; generator "
+        "classes: the same white space on every line, and a different one on every line and frame, every cut; a frame "
+        "may be returned while at most the white space and the newline behind the trailing id of its LAST atom line "
+        "are missing — its slack —, never a byte of a value). Lean: exactness for EVERY cut list and any slack "
+        "(lmp_exact_any_slack: poll by poll the per-frame-slack specification lmpStagesS; "
+        "lmp_safety_complete_any_slack); the older one-byte-lag specification lmpStages (lmp_exact, "
+        "*_trailing_partial) is compared too where its cut guard tbFree holds. The position specification "
+        "lmpStagesPosS (current_position after every poll, any slack) is judged by the tie on every schedule; its "
+        "Lean theorem exists for slack 1 / under tbFree only (rp_lmp_exact_pos[_trailing_partial]). The old "
         "late-newline rule (finding C13:lammps:trailing-blank-late-newline, fixed by /repo dfb19e7) is the model's asIs "
         "variant, kept as a record (lmp_trailing_blank_counterexample; corpus witness)",
         "number tokens restricted to [+-]digits[.digits][e[+-]digits] (no inf/nan/underscores); float()/numpy "
@@ -1159,8 +1237,9 @@ def run(ctx):
         "frame or are damaged only model = code is checked (there read_remaining_trr raises struct.error: GROMACS has "
         "exited normally, so the property does not speak about that state); reopen_file with a really replaced inode is "
         "not generated",
-        "xyz theorems for the as-is reader hold only for cuts at line ends (xyz_safety_partial); the unrestricted "
-        "theorem is proved for the `repaired` variant of the model",
+        "xyz: the model variant `repaired` IS xyz_reader as it is now (since /repo 807db24): xyz_repaired_exact is the "
+        "unrestricted theorem about the current code; the variant `asIs` (code as it was found) is kept as a record and "
+        "its theorems hold only for cuts at line ends (xyz_safety_partial)",
     ]
     new_assumptions += [
         "object-state scenarios (one reader over long schedules, two readers/runners alive at once, file name reused "
